@@ -384,6 +384,9 @@ def build_probes(case, model):
     src = {'name': names, 'gtype': gt or names, 'domain': dm or names}
     out = {'name': list(names), 'gtype': _strided(gt, PRESENT_CAP), 'domain': _strided(dm, PRESENT_CAP)}
     pf = model['prefixes'][0]
+    for k, keys in (('name', names), ('gtype', gt), ('domain', dm)):
+        for key in keys[:4] + keys[-2:]:
+            out[k] += [key.swapcase(), key.upper(), key.lower(), key + ' ', key[:-1]]
     out['name'] += [''] + model['xrefs'] + [e['name'] for e in model['dep_entries']]
     out['gtype'] += ['', 'GObject', 'gchararray', 'GBoxed', pf + 'Nope', pf + 'nope', DEP_PREFIX + 'Nope', pf, 'G', 'ab']
     out['gtype'] += list(model['dep_gtypes'])[:20]
